@@ -18,6 +18,40 @@ pub const NONASCII9: &[char] = &[
     'ä', 'Ä', 'ς', 'σ', 'ſ', '\u{212A}', 'あ', '\u{3000}', '—',
 ];
 
+/// One representative per *behavioural signature* over all Unicode scalar values: the character
+/// class, whether Latin normalisation / case folding change the character, whether the results
+/// are ASCII, the class of the normalised character, whether the normalised character still
+/// folds, whitespace-ness. Every shortcut of the per-character code paths that distinguishes
+/// characters by these traits is therefore represented, without naming the characters by hand
+/// (this is how U+0130, a caseless-class letter that normalises to an upper-case ASCII letter,
+/// gets into the alphabet).
+pub fn signature_alphabet() -> Vec<char> {
+    use crate::refm::{class, Cfg};
+    use nucleo_matcher::chars;
+    let cfg = Cfg { ignore_case: true, normalize: true, paths: false, prefer_prefix: false };
+    let mut seen: std::collections::BTreeMap<String, char> = std::collections::BTreeMap::new();
+    for cp in 0x80u32..0x110000 {
+        let Some(c) = char::from_u32(cp) else { continue };
+        let n = chars::normalize(c);
+        let f = chars::to_lower_case(c);
+        let nf = chars::to_lower_case(n);
+        let sig = format!(
+            "{:?}/{}{}{}{}{}{}/{:?}/{}",
+            class(c, cfg),
+            (n != c) as u8,
+            n.is_ascii() as u8,
+            (f != c) as u8,
+            f.is_ascii() as u8,
+            (nf != n) as u8,
+            (chars::normalize(f) != f) as u8,
+            class(n, cfg),
+            c.is_whitespace() as u8
+        );
+        seen.entry(sig).or_insert(c);
+    }
+    seen.into_values().collect()
+}
+
 #[derive(Clone, Debug)]
 pub struct Domain {
     pub name: String,
